@@ -95,4 +95,7 @@ theorem coslat_weight_nonneg (c : ℝ) : 0 ≤ Gen.coslatWeightOfCos c (max 0 (m
 
 theorem src_coslat_formula : Gen.coslatWeightIsSqrtOfClippedCos = true ∧ Gen.coslatClipBounds = (0, 1) := by decide
 
+/-- source obligation: user weights enter exactly as given (no clipping, no normalisation) -/
+theorem src_weights_used_as_given : Gen.scalerWeightsUsedAsGiven = true := by decide
+
 end C08
